@@ -243,6 +243,61 @@ def _literal_encoding(ctx, rep, rid, ci, fn, body):
     rep.add(rid, "docstring literal: every escape sequence written is read back by C++ as the same character", fmt_ok,
             detail + ": hex escapes must become fixed-width escapes (three octal digits below 0x80 - above that an octal escape is a "
             "single byte, not the character - and \\uXXXX otherwise)", hloc)
+    if rfn is not None:
+        _replacement_dispatch(rep, rid, rfn, hloc)
+
+
+def _replacement_dispatch(rep, rid, rfn, hloc):
+    """Inside the replacement function of the tokenising re.sub: the text looked at is the *whole* match (group 0, which
+    starts with the backslash), the character that decides is the one right after the backslash (index 1) compared with
+    'x', every other escape is handed back unchanged, and the code point is read from the two digits after the `x`
+    (`[2:]`, base 16)."""
+    mparam = rfn.args.args[0].arg if rfn.args.args else None
+    whole = {}
+    for st in walk_no_nested(rfn):
+        if isinstance(st, ast.Assign) and len(st.targets) == 1 and isinstance(st.targets[0], ast.Name):
+            v = st.value
+            if isinstance(v, ast.Call) and isinstance(v.func, ast.Attribute) and v.func.attr == "group" and unparse(v.func.value) == mparam:
+                whole[st.targets[0].id] = (v.args[0].value if v.args and isinstance(v.args[0], ast.Constant) else 0)
+            elif isinstance(v, ast.Subscript) and unparse(v.value) == mparam and isinstance(v.slice, ast.Constant):
+                whole[st.targets[0].id] = v.slice.value
+    if not whole:
+        rep.add(rid, "docstring literal: the replacement looks at the whole escape sequence", True,
+                "not decided: the matched text is not bound to a local from match.group(n)", hloc, nontrivial=False)
+        return
+    var, grp = sorted(whole.items())[0]
+    rep.add(rid, "docstring literal: the replacement looks at the whole escape sequence", grp == 0,
+            f"`{var} = {mparam}.group({grp})`: group {grp} lacks the backslash, so index 1 is not the escape letter and what is handed back for other "
+            f"escapes has lost its backslash", hloc)
+    # the pass-through decision
+    decided = False
+    for r in walk_no_nested(rfn):
+        if isinstance(r, ast.Return) and isinstance(r.value, ast.Name) and r.value.id == var:
+            facts = []
+            for t, pol in guards_of(r, rfn, include_exits=False):
+                facts += _split_facts(ast.parse(t, mode="eval").body, pol)
+            for f_, pol in facts:
+                if isinstance(f_, ast.Compare) and len(f_.ops) == 1 and isinstance(f_.ops[0], (ast.Eq, ast.NotEq)) \
+                        and isinstance(f_.left, ast.Subscript) and unparse(f_.left.value) == var and isinstance(f_.left.slice, ast.Constant) \
+                        and isinstance(f_.comparators[0], ast.Constant):
+                    decided = True
+                    idx, ch = f_.left.slice.value, f_.comparators[0].value
+                    not_x = (isinstance(f_.ops[0], ast.NotEq) and pol) or (isinstance(f_.ops[0], ast.Eq) and not pol)
+                    rep.add(rid, "docstring literal: an escape is handed back unchanged exactly when its letter is not `x`", idx == 1 and ch == "x" and not_x,
+                            f"`{unparse(f_)}` is {pol} where `{var}` is returned unchanged: tested index {idx}, letter {ch!r}, unchanged when "
+                            f"{'not ' if not_x else ''}equal - the hex escapes must be the ones rewritten and all others (\\n, \\\\, \\u....) kept",
+                            hloc)
+    if not decided:
+        rep.add(rid, "docstring literal: an escape is handed back unchanged exactly when its letter is not `x`", True,
+                "not decided: pass-through is not written as a comparison of one character of the match", hloc, nontrivial=False)
+    for c in ast.walk(rfn):
+        if isinstance(c, ast.Call) and isinstance(c.func, ast.Name) and c.func.id == "int" and len(c.args) == 2 and isinstance(c.args[0], ast.Subscript) \
+                and unparse(c.args[0].value) == var and isinstance(c.args[0].slice, ast.Slice):
+            sl = c.args[0].slice
+            lo = sl.lower.value if isinstance(sl.lower, ast.Constant) else None
+            base = c.args[1].value if isinstance(c.args[1], ast.Constant) else None
+            rep.add(rid, "docstring literal: the code point is the two hex digits after `\\x`", lo == 2 and sl.upper is None and base == 16,
+                    f"`{unparse(c)}`: digits taken from [{lo}:{unparse(sl.upper) if sl.upper else ''}] in base {base}", hloc)
 
 
 def _vals(fn, e):
@@ -821,6 +876,19 @@ def rule_filter_polarities(ctx, rep: Report, rid="Q5"):
                 rep.add(rid, "overload counter:engaged for two indistinguishable candidates", pol_ok,
                         f"`{unparse(cmp_)}` guards the counter and is false for two candidates: both requests for a pair of overloads with the "
                         f"same parameter names get overload 0 - the second binding carries the first one's documentation", f"{ci.mod.rel}:{st.lineno}")
+    # what is handed back for a further request is what was just remembered
+    rnames = {r.value.id for r in walk_no_nested(det) if isinstance(r, ast.Return) and isinstance(r.value, ast.Name)}
+    for st in stores:
+        if isinstance(st, ast.AugAssign):
+            blk = parent(st)
+            body = getattr(blk, "body", [])
+            later = body[body.index(st) + 1:] if st in body else []
+            reads_back = any(isinstance(x, ast.Assign) and len(x.targets) == 1 and isinstance(x.targets[0], ast.Name) and x.targets[0].id in rnames
+                             and "self._memory[" in unparse(x.value) for x in later) or \
+                any(isinstance(x, ast.Return) and x.value is not None and "self._memory[" in unparse(x.value) for x in later)
+            rep.add(rid, "overload counter:a further request is answered with the index just remembered", reads_back,
+                    f"after `{unparse(st)}` the returned index is not read back from the memory: every request gets overload 0 and the second binding "
+                    f"of a pair of overloads with the same parameter names carries the first one's text", f"{ci.mod.rel}:{st.lineno}")
     rets = [r.value for r in walk_no_nested(det) if isinstance(r, ast.Return) and r.value is not None]
     rep.add(rid, "overload counter:first request -> 0 (remembered as 0), each further request -> +1", first_zero and step_one and start_ok and bool(rets),
             f"stores {[unparse(st)[:50] for st in stores]}; initial index {[unparse(st) for st in init0]}: any other start or step skips an overload or "
@@ -857,6 +925,10 @@ def rule_names_confirmed(ctx, rep: Report, rid="Q5"):
             found += 1
             keys = {unparse(c.left) + "|" + unparse(c.comparators[0]) for c in cmps}
             bad: List[int] = []
+            # flags set before the loop: only leaving the initial value marks the candidate
+            initial = {st.targets[0].id: st.value.value for st in walk_no_nested(f_) if isinstance(st, ast.Assign) and len(st.targets) == 1
+                       and isinstance(st.targets[0], ast.Name) and isinstance(st.value, ast.Constant) and isinstance(st.value.value, bool)
+                       and st.lineno < loop.lineno and enclosing(st, ast.For) is enclosing(loop, ast.For)}
 
             def walk(stmts, confirmed, nxt):
                 """nxt: continuation (list of statement lists) to run after `stmts`."""
@@ -874,8 +946,8 @@ def rule_names_confirmed(ctx, rep: Report, rid="Q5"):
                     if isinstance(st, (ast.Break, ast.Return, ast.Raise)):
                         return
                     if isinstance(st, ast.Assign) and isinstance(st.value, ast.Constant) and isinstance(st.value.value, bool) \
-                            and all(isinstance(t, ast.Name) for t in st.targets):
-                        return  # the candidate is marked: eliminated on this path
+                            and all(isinstance(t, ast.Name) for t in st.targets) and st.value.value != initial.get(st.targets[0].id, not st.value.value):
+                        return  # the candidate is marked (the flag leaves its initial value): eliminated on this path
                     if isinstance(st, ast.Continue):
                         if not confirmed:
                             bad.append(st.lineno)
